@@ -378,4 +378,63 @@ theorem fixed_bytes (up : Bool) (ds : List Nat) (x : Int) (pz : Nat) (pt : Bool)
   | none => simp only at hpz; subst hpz; simp [zeros]
   | some P => simp only at hpz; subst hpz; simp only [padZeros, fracDigits_length]
 
+theorem sci_bytes_aux (up : Bool) (ds : List Nat) (pz : Nat) (pt : Bool)
+    (E : List Char) :
+    take (min 1 ds.length) (ds.map (digitChar up)) ++ replicate (if ds.length = 0 then 1 else 0) '0' ++
+      (if 0 + (ds.length - min 1 ds.length) + pz ≠ 0 ∨ pt = true then ['.'] else []) ++ replicate 0 '0' ++
+      take (ds.length - min 1 ds.length) (drop (min 1 ds.length) (ds.map (digitChar up))) ++ replicate pz '0' ++ E =
+    digitChar up (ds.headD 0) ::
+      (if (ds.tail ++ zeros pz).length ≠ 0 ∨ pt = true then '.' :: (ds.tail ++ zeros pz).map (digitChar up) else []) ++ E := by
+  cases ds with
+  | nil =>
+    have := point_key up pt (zeros pz) ['0'] (replicate pz '0') pz (map_zeros up pz) (by simp [zeros])
+    simp only [length_nil, Nat.min_zero, take_zero, if_true, replicate_one, nil_append, Nat.sub_zero, Nat.zero_add,
+      replicate_zero, append_nil, drop_zero, map_nil, headD_nil, tail_nil, digitChar_zero] at this ⊢
+    rw [this]; simp
+  | cons d r =>
+    have h1 : min 1 (d :: r).length = 1 := by simp
+    rw [h1]
+    have h2 : (d :: r).length - 1 = r.length := by simp
+    rw [h2]
+    have h3 : ¬ ((d :: r).length = 0) := by simp
+    rw [if_neg h3]
+    have := point_key up pt (r ++ zeros pz) [digitChar up d] (r.map (digitChar up) ++ replicate pz '0') (r.length + pz)
+      (by simp [map_zeros]) (by simp [zeros])
+    simp only [map_cons, take_succ_cons, take_zero, drop_succ_cons, drop_zero, replicate_zero, append_nil, Nat.zero_add,
+      headD_cons, tail_cons]
+    rw [take_of_length_le (by simp)]
+    have this := congrArg (· ++ E) this
+    simp only [append_assoc, cons_append, nil_append] at this ⊢
+    exact this
+
+/-- the scientific style: the pieces `emit` writes are `styleE` -/
+theorem sci_bytes (up : Bool) (ds : List Nat) (x : Int) (pz : Nat) (pt : Bool) (fracLen : Option Nat)
+    (letter : Char) (minD : Nat) (mul : Int) (hz : ds = [] → x = 0)
+    (hpz : pz = match fracLen with | some P => P - (ds.length - min 1 ds.length) | none => 0) :
+    take (min 1 ds.length) (ds.map (digitChar up)) ++ replicate (if ds.length = 0 then 1 else 0) '0' ++
+      (if 0 + (ds.length - min 1 ds.length) + pz ≠ 0 ∨ pt = true then ['.'] else []) ++ replicate 0 '0' ++
+      take (ds.length - min 1 ds.length) (drop (min 1 ds.length) (ds.map (digitChar up))) ++ replicate pz '0' ++
+      expChars letter minD ((x - (min 1 ds.length : Nat)) * mul) =
+    styleE up ds x fracLen pt letter minD mul := by
+  rw [sci_bytes_aux]
+  unfold styleE
+  have hX : (x - (min 1 ds.length : Nat)) = (if ds.length = 0 then 0 else x - 1) := by
+    cases ds with
+    | nil => have := hz rfl; subst this; simp
+    | cons d r => simp
+  rw [hX]
+  have hl : ds.length - min 1 ds.length = ds.tail.length := by cases ds <;> simp
+  rw [hl] at hpz
+  cases fracLen with
+  | none => simp only at hpz; subst hpz; simp [zeros]
+  | some P => simp only at hpz; subst hpz; simp only [padZeros]; rfl
+
+theorem expText_closed (c : FConv) (f : Flags) (W : Nat) (prec : FPrec) (e : Int) :
+    expText (closedParams c f W prec) e =
+      expChars (if isHex c then (if c.upper then 'P' else 'p') else (if c.upper then 'E' else 'e')) (if isHex c then 1 else 2) e := by
+  unfold expText expChars
+  have hne := natDigits_ne_nil 10 false e.natAbs
+  cases c <;> simp [closedParams, isHex, FConv.upper] <;>
+    (rcases hd : natDigits 10 false e.natAbs with _ | ⟨a, _ | ⟨b, t⟩⟩ <;> simp_all)
+
 end Mpir.PrintfF
